@@ -9,4 +9,5 @@ package redis
 //@ func parseRedisDataDepth
 //@   decreases maxArrayDepth + 1 - depth
 //@   requires depth >= 0
+//@   loop 1: decreases n - i
 //@   modifies *
